@@ -2,6 +2,7 @@ package main
 
 import (
 	"fmt"
+	"go/constant"
 	"go/types"
 	"sort"
 	"strings"
@@ -553,6 +554,19 @@ func c17Derivable(p *Prog, c *Check) {
 				return func(a Atom) bool { return ap.Match(a, copyBinds(b)) }
 			}
 			preds := []func(Atom) bool{m("IsTopic($d.LogPredicates[$i].LogValueRef) == false"), m("$d.LogPredicates[$i].ValuePredicate.Op != 5"), m(pat)}
+			// the "is a topic BytesEq predicate" test factored into a boolean helper on the predicate
+			preds = append(preds, func(a Atom) bool {
+				if a.L.K != TCall || a.L.Callee == nil || len(a.L.Sub) == 0 || fnPkgPath(a.L.Callee) != fnPkgPath(vf) {
+					return false
+				}
+				if !((a.Op == "==" && a.R.s == "false") || (a.Op == "!=" && a.R.s == "true")) {
+					return false
+				}
+				if !ParsePat("$d.LogPredicates[$i]").Match(a.L.Sub[0], copyBinds(b)) {
+					return false
+				}
+				return falseOnlyIf(p, a.L.Callee, "IsTopic($x.LogValueRef) == false", "$x.ValuePredicate.Op != 5")
+			})
 			for _, alt := range alts {
 				preds = append(preds, m(alt))
 			}
@@ -824,4 +838,49 @@ func calleeView(p *Prog, v view, call *ssa.Call) view {
 		}
 	}
 	return view{p.Info(h), func(t *Term) *Term { return v.up(t.subst(m)) }}
+}
+
+// falseOnlyIf: every way the boolean helper h (a method or function of one subject $x, its first
+// parameter) can return false establishes one of the given atoms about $x.
+func falseOnlyIf(p *Prog, h *ssa.Function, pats ...string) bool {
+	if h.Blocks == nil || len(h.Params) == 0 || h.Signature.Results().Len() != 1 || !isBoolType(h.Signature.Results().At(0).Type()) {
+		return false
+	}
+	hfi := p.Info(h)
+	b := Binds{"x": hfi.T(h.Params[0])}
+	holds := func(facts []Atom) bool {
+		for _, ps := range pats {
+			ap := ParseAtomPat(ps)
+			for _, a := range facts {
+				if ap.Match(a, copyBinds(b)) {
+					return true
+				}
+			}
+		}
+		return false
+	}
+	var cases func(v ssa.Value, facts []Atom, depth int) bool
+	cases = func(v ssa.Value, facts []Atom, depth int) bool {
+		if cst, isC := v.(*ssa.Const); isC && cst.Value != nil && cst.Value.Kind() == constant.Bool {
+			return constant.BoolVal(cst.Value) || holds(facts)
+		}
+		if ph, isPhi := v.(*ssa.Phi); isPhi && depth < 4 {
+			for i, e := range ph.Edges {
+				pred := ph.Block().Preds[i]
+				pf := append(append([]Atom{}, hfi.blockFacts(pred)...), hfi.edgeAtoms(pred, ph.Block())...)
+				if !cases(e, pf, depth+1) {
+					return false
+				}
+			}
+			return true
+		}
+		return holds(append(append([]Atom{}, facts...), condAtoms(hfi.T(v), false)...))
+	}
+	rets := returnsOf(h)
+	for _, r := range rets {
+		if !cases(r.Results[0], hfi.FactsAt(r), 0) {
+			return false
+		}
+	}
+	return len(rets) > 0
 }
